@@ -89,6 +89,9 @@ def install(w):
     H['@__cxa_throw'] = cxa_throw
     H['@__cxa_allocate_exception'] = lambda it, a: Ptr(Obj(it.concretize(a[0]) + 64, 'exc', 16, 'heap-exc'), 0)
     H['@__cxa_atexit'] = lambda it, a: 0
+    for nm in ('@_ZNSt16invalid_argumentC1EPKc', '@_ZNSt11range_errorC1EPKc', '@_ZNSt13runtime_errorC1EPKc', '@_ZNSt11logic_errorC1EPKc', '@_ZNSt12out_of_rangeC1EPKc', '@_ZNSt12length_errorC1EPKc'):
+        H[nm] = lambda it, a: None
+    H['@__cxa_free_exception'] = lambda it, a: None
     H['@_ZNSt8ios_base4InitC1Ev'] = lambda it, a: None
     H['@_ZNSt8ios_base4InitD1Ev'] = lambda it, a: None
     # iostream: no-ops returning the stream
@@ -97,6 +100,11 @@ def install(w):
                '@_ZStlsIcSt11char_traitsIcESaIcEERSt13basic_ostreamIT_T0_ES7_RKNSt7__cxx1112basic_stringIS4_S5_T1_EE'):
         H[nm] = lambda it, a: a[0]
     H['@strlen'] = lambda it, a: _strlen(w, a[0])
+    # std::string layout (libstdc++ cxx11): {char* data; size_t size; union{char buf[16]; size_t cap}}
+    H['@_ZNKSt7__cxx1112basic_stringIcSt11char_traitsIcESaIcEE5c_strEv'] = lambda it, a: w.load(a[0], Ty('ptr', to=I(8)))
+    H['@_ZNKSt7__cxx1112basic_stringIcSt11char_traitsIcESaIcEE4dataEv'] = lambda it, a: w.load(a[0], Ty('ptr', to=I(8)))
+    H['@_ZNKSt7__cxx1112basic_stringIcSt11char_traitsIcESaIcEE4sizeEv'] = lambda it, a: w.load(Ptr(a[0].obj, a[0].off + 8), I(64))
+    H['@_ZNKSt7__cxx1112basic_stringIcSt11char_traitsIcESaIcEE6lengthEv'] = lambda it, a: w.load(Ptr(a[0].obj, a[0].off + 8), I(64))
     w.omp_max_threads = 4; w.omp_calls = []
     H['@omp_get_max_threads'] = lambda it, a: w.omp_max_threads
     H['@omp_get_num_threads'] = lambda it, a: 1
